@@ -35,5 +35,8 @@ def eofRecognised : Bool := true
 /-- `get_gme_2qubit` (measure.py): `max(0, 1-c²)` under the square root -/
 def gmeClampSqrtArg : Bool := true
 def gmeRecognised : Bool := true
+/-- `get_concurrence_pure` (eof.py): `max(0, 2*(1-tmp2))` under the square root -/
+def concPureClampSqrtArg : Bool := true
+def concPureRecognised : Bool := true
 
 end Numqi.Ent.Thresholds
